@@ -512,6 +512,18 @@ def q_nested(tier='quick'):
     return sc, Info(schemas={'a.xsd': sch_a, 'b.xsd': sch_b}, nested=True, simple=[], subjects=[])
 
 
+def q_kinds(tier='quick'):
+    """a global ELEMENT with an anonymous type and a complexType share the local name Thing (the doc/literal wrapper habit); a type
+    declared before both extends t:Thing: base= denotes the TYPE. Declaration order of the three symbolic."""
+    thing_el = GEl('Thing', content=Seq([El('from_element', 'xs:string')]))
+    thing_ty = CT('Thing', Seq([El('from_type', 'xs:int')]), attrs=[Attr('rev', 'xs:int')])
+    derived = CT('Derived', Seq([El('own', 'xs:boolean')]), base='t:Thing')
+    order = Selector('order', perms(3))
+    sch = Schema(NS1, [thing_el, thing_ty, derived], prefixes={'t': NS1}, order=order)
+    sc = Scenario('Q-kinds', {'a.xsd': sch}, 'a.xsd', [order])
+    return sc, Info(schemas={'a.xsd': sch}, kinds=True, simple=[], subjects=[])
+
+
 def q_rebound(tier='quick'):
     """a prefix bound on the schema root to the target namespace is bound AGAIN, to the imported namespace, on one complexType:
     inside that type the prefix denotes the imported namespace (XML namespace scoping)"""
